@@ -75,6 +75,39 @@ func bigDecCase(ctx *Ctx, b []byte) {
 			ctx.Res.Violate(report.Violation{Property: "C02", Oracle: "input-unmodified", Key: "big:input-modified", Detail: "bytesToBigInt modified its argument", Line: line})
 		}
 	}
+	// C18: whatever byte string is accepted as a big integer (over-long sign extension, any length, any lead
+	// byte) re-encodes to the minimal 8-aligned form, which decodes to the same number and re-encodes identically
+	if p == "" && r != nil {
+		type enc struct {
+			b      []byte
+			padVal byte
+			padLen int
+		}
+		full := func(v *big.Int) ([]byte, string) {
+			e, p := guard("bigIntToBytes", func() enc {
+				b, pv, pl := ttlv.VerifBigIntToBytes(new(big.Int).Set(v), 8)
+				return enc{b, pv, pl}
+			})
+			return append(bytes.Repeat([]byte{e.padVal}, e.padLen), e.b...), p
+		}
+		e1, p1 := full(r)
+		switch {
+		case p1 != "":
+			ctx.Res.Violate(report.Violation{Property: "C18", Oracle: "reencode-total", Key: "big:accepted-but-unencodable", Detail: "an accepted big integer cannot be re-encoded: " + p1, Line: line})
+		case len(e1) == 0 || len(e1)%8 != 0 || len(e1) > (len(b)+7)/8*8:
+			ctx.Res.Violate(report.Violation{Property: "C18", Oracle: "fixed-point", Key: "big:reencoding-not-canonical", Detail: fmt.Sprintf("re-encoding %s of %s is empty, not 8-aligned or longer than the padded input", hexUp(e1), hexUp(b)), Line: line})
+		default:
+			r2, p2 := guard("bytesToBigInt", func() *big.Int { return ttlv.VerifBytesToBigInt(append([]byte{}, e1...)) })
+			if p2 != "" || r2 == nil || r2.Cmp(r) != 0 {
+				ctx.Res.Violate(report.Violation{Property: "C18", Oracle: "redecode", Key: "big:reencoded-differs", Detail: fmt.Sprintf("%s re-encodes to %s which decodes to %v %s", hexUp(b), hexUp(e1), r2, p2), Line: line})
+			} else if e2, p3 := full(r2); p3 != "" || !bytes.Equal(e1, e2) {
+				ctx.Res.Violate(report.Violation{Property: "C18", Oracle: "fixed-point", Key: "big:second-reencode-differs", Detail: fmt.Sprintf("second re-encoding %s differs from the first %s", hexUp(e2), hexUp(e1)), Line: line})
+			}
+			if !bytes.Equal(e1, b) {
+				ctx.Res.Count("big.dec.noncanonical-accepted")
+			}
+		}
+	}
 	ctx.Add(line, impl, true, "C01,C02,C03,C14,C18")
 }
 
